@@ -45,6 +45,10 @@ func runC12(w *World) {
 	var d time.Duration
 	tLast := time.Duration(-1)
 	nevents := 1 + w.Draw(8, "nevents")
+	if w.Tier == "thorough" && w.Chance(1, 3, "longhistory") {
+		nevents = 6 + w.Draw(8, "nevents2")
+		w.MaxSteps = 200000
+	}
 	var hist []string
 	nproto := 0
 	// keepalives for connections that stay up while we wait
